@@ -24,7 +24,7 @@ Definition cfg_update (cfg : config) (u : bool) : config :=
   {| c_continue := c_continue cfg; c_explicit_exec := c_explicit_exec cfg; c_unique := c_unique cfg;
      c_update := u; c_host_conds := c_host_conds cfg; c_custom_cond := c_custom_cond cfg;
      c_cmds := c_cmds cfg; c_main_cmds := c_main_cmds cfg; c_helper := c_helper cfg;
-     c_helper_dir := c_helper_dir cfg; c_watch := c_watch cfg |}.
+     c_helper_dir := c_helper_dir cfg; c_watch := c_watch cfg; c_deadline := c_deadline cfg; c_cancelled := c_cancelled cfg |}.
 
 Definition is_std (f : bytes) : bool :=
   bytes_eqb f [x73; x74; x64; x6f; x75; x74] || bytes_eqb f [x73; x74; x64; x65; x72; x72]
